@@ -112,10 +112,11 @@ class Runner:
         """Sequential phases after the first build: unchanged rebuild, clean."""
         sb = self.sb
         t1 = self.tree()
-        from .history import cache_duplicates, cache_comparison_mismatches
+        from .history import cache_duplicates, cache_comparison_mismatches, cache_forest
         snap = uni.snap(sb.R)
         dups = cache_duplicates(snap.get('c')) if first.get('build') == 'done' else []
         cmps = cache_comparison_mismatches(snap, 'c', sb) if first.get('build') == 'done' else []
+        forest = cache_forest(snap, 'c', sb) if first.get('build') == 'done' else None
         inv = []
 
         def root(b):
@@ -132,7 +133,7 @@ class Runner:
         except Exception as e:
             cl = 'EXC ' + type(e).__name__
         t3 = self.tree()
-        return {'first': first, 'tree': t1, 'cache_duplicates': dups, 'cache_comparison_mismatches': [c[:2] for c in cmps], 'rebuild': r2, 'rebuild_inv': sorted(map(canon, inv)), 'tree2': t2,
+        return {'first': first, 'tree': t1, 'cache_duplicates': dups, 'cache_comparison_mismatches': [c[:2] for c in cmps], 'cache_forest': forest, 'rebuild': r2, 'rebuild_inv': sorted(map(canon, inv)), 'tree2': t2,
                 'clean': cl, 'tree3': t3, 'tmp': self.sb.tmp_listing()}
 
     def tree(self):
